@@ -11,8 +11,20 @@ namespace etl {
 /// two exact rational fractions represented by the ratio specializations
 /// R1 and R2.
 /// \ingroup ratio
+namespace detail {
+// cross-reduce first: the quotient of two representable ratios with a representable
+// result must not overflow
 template <typename R1, typename R2>
-using ratio_divide = ratio<R1::num * R2::den, R1::den * R2::num>;
+struct ratio_divide_impl {
+    static_assert(R2::num != 0, "division by zero");
+    static constexpr intmax_t gcd1 = gcd(abs(R1::num), abs(R2::num));
+    static constexpr intmax_t gcd2 = gcd(R1::den, R2::den);
+    using type = typename ratio<(R1::num / gcd1) * (R2::den / gcd2), (R1::den / gcd2) * (R2::num / gcd1)>::type;
+};
+} // namespace detail
+
+template <typename R1, typename R2>
+using ratio_divide = typename detail::ratio_divide_impl<R1, R2>::type;
 
 } // namespace etl
 
